@@ -243,8 +243,8 @@ def setHelo (s : S) (d : Bytes) : S := { s with c := { s.c with helo := d } }
 
 /-- the reply to an accepted greeting: plain for HELO, the capability list for EHLO/LHLO -/
 def greetReply (s : S) (enhanced : Bool) (domain : Bytes) : S :=
-  if !enhanced then replyB s 250 ⟨2, 0, 0⟩ ["Hello ".b ++ domain]
-  else replyB s 250 noEnh (("Hello ".b ++ domain) :: caps s)
+  if !enhanced then replyB s 250 ⟨2, 0, 0⟩ ["Hello ".b ++ printable domain]
+  else replyB s 250 noEnh (("Hello ".b ++ printable domain) :: caps s)
 
 /-- `Backend.NewSession` (only called while there is no session): the session is installed iff it was accepted -/
 def newSession (s : S) (domain : Bytes) : S × BRes :=
@@ -332,7 +332,7 @@ def mailCall (s : S) (id : Nat) (frm : Bytes) (opts : MailOpts) : S × Bool :=
   | .ok =>
     -- (the Go code sets the flag after writing the reply; nothing can observe the order)
     let s := { s with c := { s.c with fromReceived := true } }
-    (replyB s 250 ⟨2, 0, 0⟩ ["Roger, accepting mail from <".b ++ frm ++ ">".b], false)
+    (replyB s 250 ⟨2, 0, 0⟩ ["Roger, accepting mail from <".b ++ printable frm ++ ">".b], false)
   | .panic => (s, true)
   | e => (write s (renderError 451 ⟨4, 0, 0⟩ e), false)
 
@@ -474,7 +474,7 @@ def handleRcpt (s : S) (arg : Bytes) : S × Bool :=
                 match r with
                 | .ok =>
                   let s := { s with c := { s.c with recipients := s.c.recipients ++ [rcpt] } }
-                  (replyB s 250 ⟨2, 0, 0⟩ ["I'll make sure <".b ++ rcpt ++ "> gets this".b], false)
+                  (replyB s 250 ⟨2, 0, 0⟩ ["I'll make sure <".b ++ printable rcpt ++ "> gets this".b], false)
                 | .panic => (s, true)
                 | e => (write s (renderError 451 ⟨4, 0, 0⟩ e), false)
 
@@ -688,7 +688,7 @@ def errPanic : BRes := .se 421 ⟨4, 0, 0⟩ "Internal server error".b
 def writeLmtpStatuses (s : S) (sts : List (Bytes × BRes)) : S :=
   sts.foldl (fun s (a, r) =>
     let (code, enh, msg) := dataStatus r
-    replyB s code enh ["<".b ++ a ++ "> ".b ++ msg]) s
+    replyB s code enh ["<".b ++ printable a ++ "> ".b ++ msg]) s
 
 def setW (s : S) (w : W) : S := { s with w := w }
 
@@ -973,7 +973,7 @@ def dispatch (s : S) (cmd arg : Bytes) : S :=
   | .quit => closeConn (reply s 221 ⟨2, 0, 0⟩ "Bye")
   | .auth => recoverPanic (handleAuth s arg)
   | .starttls => handleStartTLS s
-  | .unknown => protocolErrorB s 500 ⟨5, 5, 2⟩ ("Syntax errors, ".b ++ cmd ++ " command unrecognized".b)
+  | .unknown => protocolErrorB s 500 ⟨5, 5, 2⟩ ("Syntax errors, ".b ++ printable cmd ++ " command unrecognized".b)
 
 def handle (s : S) (cmd0 arg : Bytes) : S :=
   if cmd0.isEmpty then protocolError s 500 ⟨5, 5, 2⟩ "Error: bad syntax"
